@@ -241,7 +241,7 @@ CHECKS = [
 ]
 
 MUTANTS = [
-    dict(name="revert F15 fix (base given a predecessor)", file="_reduce.py", old="        if target in bases:\n            continue\n", new="", checks=["multiplier", "zoomify"]),
+    dict(name="revert F15 fix (base given a predecessor)", file="_reduce.py", old="        if target in bases:\n", new="        if False:\n", checks=["multiplier", "zoomify"]),
     dict(name="revert F5 fix (outfile truncated per base)", file="_reduce.py", old='h5py.File(outfile, "w" if i == 0 else "r+") as dest', new='h5py.File(outfile, "w") as dest', checks=["zoomify"]),
     dict(name="predecessor need not divide", file="_reduce.py", old="            if target % resn[p] == 0:", new="            if True:", checks=["multiplier"]),
     dict(name="non-derivable accepted", file="_reduce.py", old="        if p == -1 and resn[i] not in bases:", new="        if False:", checks=["multiplier"]),
